@@ -267,6 +267,21 @@ var fnSpecs = []groupSpec{
 		Skip:  []string{"_, dup := dc.queue[uint32(qid)]", "dc.queue[uint32(qid)] = c", "dc.queueMu.Unlock()"},
 		Doc:   "; the body of the search loop: `dup` = the id just taken is still in the waiter table; result = (found, the id, the counter)",
 	}},
+	// ---------------------------------------------------------------- C14: what the collection loop does with one result
+	{Group: "Forward", fnSpec: fnSpec{
+		File: "plugin/executable/forward/forward.go", Func: "exchange", Recv: "Forward", LoopBody: true, SelectCase: "res := <-resChan", Result: "false",
+		Lean: "forwardCollectStep", Params: "(i concurrent : Int) (failed : Bool) (rcode : Int)", Ret: "Bool",
+		Vars: map[string]ty{"i": tInt, "concurrent": tInt},
+		Expr: map[string]lx{
+			"err != nil":         b("failed"),
+			"r.Rcode":            i("rcode"),
+			"dns.RcodeSuccess":   i("(0 : Int)"),
+			"dns.RcodeNameError": i("(3 : Int)"),
+		},
+		Stmt: map[string]string{"return r, nil": "return true"},
+		Skip: []string{"r, err := res.r, res.err"},
+		Doc:  "; the body of `case res := <-resChan` in the collection loop: `failed` = the helper reported an error (or unparsable bytes), `rcode` = the reply's rcode; true = the call returns this reply now, false = `continue`",
+	}},
 	// ---------------------------------------------------------------- C13: the binary search of List.Contains
 	{Group: "Netlist", fnSpec: fnSpec{
 		File: "pkg/matcher/netlist/list.go", Func: "Contains", Recv: "List", Fuel: "fuel",
